@@ -4,15 +4,16 @@
 (* A species is an abstract composition: a set of <<key, count>> pairs, key 0 = charge, key   *)
 (* Z > 0 = atomic number.  A reaction is a set of <<species, nu>> pairs (nu < 0 reactant,     *)
 (* nu > 0 product).  Nothing in here is a variable; both state machines draw from this pool   *)
-(* and hand the compositions to the binding layer, which builds chempy Species objects with   *)
-(* exactly these explicit compositions (the names are labels only).                           *)
+(* and hand the compositions to the binding layer, which builds chempy Species objects either *)
+(* with exactly these explicit compositions or from the name, which is a formula denoting the *)
+(* same composition (option spf of the state machines).                                       *)
 (*                                                                                            *)
 (* Constant-level operators: stoichiometry / composition matrices, mass-action quotient Q,    *)
 (* IsEq, Conserves, the number of equations NEq of a residual formulation.                    *)
 EXTENDS Integers, Sequences, FiniteSets, FiniteSetsExt, SequencesExt, Rational, LinAlg
 
 SpName == << "H2O", "H+", "OH-", "NH4+", "NH3", "H2CO3", "HCO3-", "CO3-2", "Cu+2", "CuNH3+2",
-             "Cu(NH3)2+2", "CuOH+", "Cu2(OH)2+2", "HAc", "Ac-",
+             "Cu(NH3)2+2", "CuOH+", "Cu2(OH)2+2", "CH3COOH", "CH3COO-",
              "Ag+", "Cl-", "AgCl(s)", "Mg+2", "Mg(OH)2(s)", "Ca+2", "F-", "CaF2(s)",
              "CuNH3OH+", "Cu(NH3)3+2" >>
 SpComp == <<
